@@ -1133,7 +1133,7 @@ func validCert(ck certKey, der [][]byte, key crypto.Signer, now time.Time) (leaf
 		if !ok {
 			return nil, errors.New("acme/autocert: private key type does not match public key type")
 		}
-		if pub.N.Cmp(prv.N) != 0 {
+		if pub.N.Cmp(prv.N) != 0 || pub.E != prv.E {
 			return nil, errors.New("acme/autocert: private key does not match public key")
 		}
 		if !ck.isRSA && !ck.isToken {
